@@ -131,7 +131,7 @@ def n4(ctx):
             root, b, c, tys = sites[-1]
             ctx.bad("ord:%s:%s" % (file, cal), "unreviewed name-order dependence: %s in %s calls %s on a type that contains slots (%s); %d site(s) in this file, %d reviewed. Its result can differ between two inputs that are renamings of each other" % (
                 C.short(root.id), file, cal, tys[:80], len(sites), ent[0] if ent else 0), where_of(b, c.bb))
-    ctx.floor("order-sensitive calls on slot-carrying types", n, 5)
+    ctx.floor("order-sensitive calls on slot-carrying types", n, 3)
     m = 0
     seen = {}
     for b in crate.bodies.values():
@@ -157,7 +157,7 @@ def n4(ctx):
             root, b, sb, inv = sites[-1]
             ctx.bad("iter:%s" % file, "unreviewed name-order dependence: %s in %s iterates a slot set in Slot order and calls Slot::%s in the loop body (%d such loops in this file, %d reviewed); which invented name goes to which slot depends on how the user's names sort" % (
                 C.short(root.id), file, "/".join(inv), len(sites), ent[0] if ent else 0), where_of(b, sb))
-    ctx.floor("name-inventing iterations over slot sets", m, 6)
+    ctx.floor("name-inventing iterations over slot sets", m, 3)
 
 
 @rule("P2", doc="touch-after-change with Full (shared with C02): a stale parent shape is canonical or not depending on how names sort")
